@@ -101,6 +101,18 @@ def rule_a(model, rep):
                   "the length compared with the truncation limit must be measured on the encoded bytes",
                   witness="with truncate_error=True a password of six 2-byte characters (12 bytes > 8) is accepted and silently cut: "
                           "hash('éééééé') verifies 'éééé'+anything")
+    # lmhash: the text that is measured is the text that is hashed (upper-cased *before* encoding: 'ß' becomes 'SS')
+    W = "passlib.handlers.windows"
+    cc, raw = model.func(W, "lmhash._calc_checksum"), model.func(W, "lmhash.raw")
+    measured = [ast.unparse(c.args[0]) for c in walk_no_nested(cc) if isinstance(c, ast.Call) and ast.unparse(c.func) == "self._check_truncate_policy" and c.args
+                and isinstance(model.unit(W).parent(model.unit(W).parent(c)), ast.If) and "isinstance(secret, str)" in ast.unparse(model.unit(W).parent(model.unit(W).parent(c)).test)
+                and model.unit(W).parent(c) in model.unit(W).parent(model.unit(W).parent(c)).body]
+    consumed = [ast.unparse(n.value) for n in walk_no_nested(raw) if isinstance(n, ast.Assign) and ast.unparse(n.targets[0]) == "secret" and ".encode(" in ast.unparse(n.value)]
+    norm_ = lambda t: t.replace("self.encoding", "encoding")
+    rep.check(len(measured) == 1 and len(consumed) == 1 and norm_(measured[0]) == norm_(consumed[0]), R, site(W, "lmhash._calc_checksum"),
+              f"measures `{measured[0] if measured else '<none>'}`; raw() hashes `{consumed[0] if consumed else '<none>'}`",
+              "the truncation limit is measured on exactly the byte string the algorithm consumes (upper-cased, then encoded)",
+              witness="lmhash.using(truncate_error=True).hash('\u00dfabcdefghijklm', encoding='cp437'): 14 bytes before upper-casing, 15 after ('SS'): accepted and silently cut")
     rep.extra["truncating_entries"] = n_entries
     rep.minimum(R, 6)
 
